@@ -3,6 +3,7 @@ package sim
 import (
 	"fmt"
 	"math/big"
+	"sort"
 
 	sdk "github.com/cosmos/cosmos-sdk/types"
 
@@ -19,7 +20,7 @@ type rxRecord struct {
 
 var c02ReplayKinds = []string{"verbatim", "other-body", "other-recipient", "other-caller", "other-v-encoding", "other-submitter",
 	"after-pause-unpause", "after-attester-rotation", "after-unlink-relink", "after-restart", "after-export-import", "as-non-module", "as-module",
-	"after-messenger-remove-readd", "after-admin-churn"}
+	"after-messenger-remove-readd", "after-admin-churn", "after-domain-decommission"}
 
 // runC02 drives replay-heavy histories; the exactly-once verdicts come from the engine's
 // outcome oracle (nonce-used => MustFail), the state tap (used set == model), the
@@ -56,8 +57,49 @@ func c02RefusedMints(rc *RunCtx) {
 	}
 }
 
+// c02PairValueSweep: for the source domains 0, 11, 64 and 2^32-1 and every nonce value of the sweep (0..72 and around
+// every power of two up to 2^64-1): the first receive succeeds, the second is refused, the pair is reported used.
+func c02PairValueSweep(rc *RunCtx) {
+	e, err := StdEngine(rc, false, false, nil)
+	if err != nil {
+		rc.Cov.Inconclusive("pair value sweep: " + err.Error())
+		return
+	}
+	e.LightQueries = true
+	var nonces []uint64
+	for n := uint64(0); n <= 72; n++ {
+		nonces = append(nonces, n)
+	}
+	for sh := uint(7); sh < 64; sh++ {
+		nonces = append(nonces, 1<<sh-1, 1<<sh, 1<<sh+1)
+	}
+	nonces = append(nonces, ^uint64(0)-1, ^uint64(0))
+	i := 0
+	for _, d := range []uint32{0, 11, 64, 0xffffffff} {
+		for _, n := range nonces {
+			i++
+			if i%rc.NShards != rc.Shard {
+				continue
+			}
+			in := &InMsg{Version: 0, Src: d, Dst: 4, Nonce: n, Sender: Structured32(1), Recipient: Structured32(2), Caller: make([]byte, 32), Body: []byte("sweep")}
+			raw := in.Bytes()
+			tx := Tx{Msgs: msgs1(&ct.MsgReceiveMessage{From: Acct(UserIx), Message: raw, Attestation: e.Attest(raw, i%3)}), Note: fmt.Sprintf("C02 pair value sweep: (%d, %d) first", d, n)}
+			r1 := e.Exec(tx)
+			in.Body = []byte("sweep again")
+			raw2 := in.Bytes()
+			r2 := e.Exec(Tx{Msgs: msgs1(&ct.MsgReceiveMessage{From: Acct(OtherIx), Message: raw2, Attestation: e.Attest(raw2, 0)}), Note: fmt.Sprintf("C02 pair value sweep: (%d, %d) second", d, n)})
+			if i%7 == 0 {
+				e.queryUsedNonce(&tx, nonceKey{d, n})
+			}
+			rc.Cov.Cell("C02_pair_value_sweep", fmt.Sprintf("d=%d/first=%s/second=%s", d, okWord(r1.OK), okWord(r2.OK)))
+		}
+	}
+	e.FullQueryCheck(nil, []uint64{100})
+}
+
 func runC02(rc *RunCtx) {
 	r := rc.Rand
+	c02PairValueSweep(rc)
 	if rc.Shard == 1%rc.NShards {
 		c02RefusedMints(rc)
 	}
@@ -214,6 +256,37 @@ func runC02(rc *RunCtx) {
 					if addr, ok := e.M.Messengers[d]; ok {
 						admin(&ct.MsgRemoveRemoteTokenMessenger{From: Acct(OwnerIx), DomainId: d})
 						admin(&ct.MsgAddRemoteTokenMessenger{From: Acct(OwnerIx), DomainId: d, Address: addr})
+					}
+				case "after-domain-decommission":
+					// every token pair of the source domain unlinked, its messenger removed (rotation needs remove + add), both
+					// restored: what was received from the domain stays received
+					d := in2.Src
+					type pk struct {
+						t  string
+						lt string
+					}
+					var ps []pk
+					for k, lt := range e.M.Pairs {
+						if k.Domain == d {
+							ps = append(ps, pk{k.Token, lt})
+						}
+					}
+					sort.Slice(ps, func(i, j int) bool { return ps[i].t < ps[j].t })
+					for _, p := range ps {
+						admin(&ct.MsgUnlinkTokenPair{From: Acct(TCIx), RemoteDomain: d, RemoteToken: []byte(p.t), LocalToken: p.lt})
+					}
+					addr, had := e.M.Messengers[d]
+					if had {
+						admin(&ct.MsgRemoveRemoteTokenMessenger{From: Acct(OwnerIx), DomainId: d})
+					}
+					e.queryUsedNonce(&Tx{Note: "C02 after the domain was decommissioned"}, nonceKey{d, in2.Nonce})
+					if had {
+						admin(&ct.MsgAddRemoteTokenMessenger{From: Acct(OwnerIx), DomainId: d, Address: addr})
+					}
+					for _, p := range ps {
+						if len(p.t) == 32 {
+							admin(&ct.MsgLinkTokenPair{From: Acct(TCIx), RemoteDomain: d, RemoteToken: []byte(p.t), LocalToken: p.lt})
+						}
 					}
 				case "after-admin-churn":
 					// every kind of administrative write and its inverse between the receive and its replay
